@@ -139,6 +139,10 @@ def gen_decision_cases(tier, seed):
         sets = {}
         for k in KINDS[:4]:
             sets[k] = sorted(set(rng.choice(U) for _ in range(rng.choice([0, 0, 1, 1, 2]))))
+        if i % 6 == 0:
+            # a rule set as administrators grow them: the rules that matter among many that do not (other directories)
+            k = rng.choice(KINDS[:4])
+            sets[k] = sorted(set(sets[k] + [wc.WATCH + "/other/%s%d" % (rng.choice("pqrs"), j) for j in range(rng.randint(4, 14))]))
         for k in KINDS[4:]:
             sets[k] = sorted(set(rng.choice(U) for _ in range(rng.choice([0, 0, 0, 1]))))
         editor = rng.random() < 0.5
